@@ -794,6 +794,21 @@ class Evaluator:
                 it = ('call', 'builtins.range', (('bin', '-', ('call', 'builtins.len', (pair,), ()), C(1)),), ())
                 vals = ('tuple', (_mk_sub(pair, var), _mk_sub(pair, ('bin', '+', var, C(1)))))
                 head = self._assign(s.target, vals, head, mod, fi, depth, ln)
+            elif _enumerated_comp(it, s.target) is not None:
+                # for i, v in enumerate(E(j) for j in R)   ==   for i in R': v = E(i)      (R = range(n), R' = range(n))
+                # for v in (E(j) for j in R)               ==   for j in R: v = E(j)
+                comp_, counted = _enumerated_comp(it, s.target)
+                bv_, it_r, _c = comp_[3][0]
+                if counted:
+                    idx_t, val_t = s.target.elts
+                    var = self._loopvar(idx_t, it_r, tag)
+                else:
+                    idx_t, val_t = None, s.target
+                    var = S('%s@%s' % (bv_[1] if bv_[0] == 'bv' else 'idx', tag))
+                it = it_r
+                if idx_t is not None:
+                    head = self._assign(idx_t, var, head, mod, fi, depth, ln)
+                head = self._assign(val_t, substitute(comp_[2], {bv_: var}), head, mod, fi, depth, ln)
             else:
                 var = self._loopvar(s.target, it, tag)
                 head = self._assign(s.target, var, head, mod, fi, depth, ln)
@@ -840,6 +855,7 @@ class Evaluator:
                         comp = ('comp', 'list', substitute(next(iter(elts)), sub_), ((bv, it, ()),))
                         post.env[name] = comp if not start[1] else ('bin', '+', start, comp)
             post.loops.append(LoopSummary(s, 'for', var, it, body_states, head_env, entry_env))
+            self.loops_seen.setdefault(s, []).append(post.loops[-1])
             post.trace.append('%d:for done' % ln)
             if s.orelse:
                 res.extend(self._block(s.orelse, post, fi, depth))
@@ -1812,6 +1828,9 @@ class Evaluator:
             if callee.dotted in _UF and len(pos) == 2 and not kws:
                 # np.equal(a, b) is a == b
                 return [(canon_cmp(_UF[callee.dotted], pos[0], pos[1]), st, 'ok')]
+            if callee.dotted == 'numpy.dot' and len(pos) == 2 and not kws:
+                # np.dot(a, b) is a.dot(b)
+                return [(('meth', 'dot', pos[0], (pos[1],), ()), st, 'ok')]
             if callee.dotted == 'numpy.transpose' and len(pos) == 1 and not kws:
                 # np.transpose(x) == np.asarray(x).T
                 x = pos[0]
@@ -1835,6 +1854,21 @@ class Evaluator:
         if callee.kind == 'repo' and depth < self.max_depth and not star and not errs \
                 and self.inline(f.qualname, depth):
             self.stats['inlined'] += 1
+            gen = _simple_generator(f)
+            if gen is not None:
+                # def g(a): for v in IT: if c: yield E     is the generator expression (E for v in IT if c)
+                gs = State()
+                for formal in f.all_formals():
+                    if formal in bound:
+                        gs.env[formal] = bound[formal]
+                    elif formal in f.defaults:
+                        o_ = self._ev(f.defaults[formal], self._mini_state(), f.module, f.parent, depth)
+                        gs.env[formal] = o_[0][0] if len(o_) == 1 and o_[0][2] == 'ok' else S('%s.default' % formal)
+                    else:
+                        gs.env[formal] = S(formal)
+                go = self._ev(gen, gs, f.module, f, depth + 1)
+                if len(go) == 1 and go[0][2] == 'ok':
+                    return [(go[0][0], st, 'ok')]
             out = []
             sub = st.copy()
             saved_env = sub.env
@@ -2271,6 +2305,52 @@ def _closed_vec(t):
         _CLOSED_CACHE.clear()
     _CLOSED_CACHE[t] = res
     return res
+
+
+def _enumerated_comp(it, target):
+    """(comprehension, counted?) when `it` is enumerate(<comp over range(n)>) with a two-name target, or the bare
+    comprehension over a range with a single-name target; None otherwise"""
+    def over_range(c):
+        return c[0] == 'comp' and c[1] in ('gen', 'list') and len(c[3]) == 1 and not c[3][0][2] and c[3][0][0][0] == 'bv' \
+            and c[3][0][1][0] == 'call' and c[3][0][1][1] == 'builtins.range' and len(c[3][0][1][2]) == 1 \
+            and not c[3][0][1][3]
+    if it[0] == 'call' and it[1] == 'builtins.enumerate' and len(it[2]) == 1 and not it[3] and over_range(it[2][0]) \
+            and isinstance(target, (ast.Tuple, ast.List)) and len(target.elts) == 2 \
+            and isinstance(target.elts[0], ast.Name):
+        return it[2][0], True
+    if over_range(it) and isinstance(target, ast.Name):
+        return it, False
+    return None
+
+
+def _simple_generator(f):
+    """The generator expression a generator function of the shape
+        [docstring]  for v in IT: [if c:] yield E
+    abbreviates, or None."""
+    cache = _simple_generator.__dict__.setdefault('cache', {})
+    if f.qualname in cache:
+        return cache[f.qualname]
+    cache[f.qualname] = None
+    body = [s_ for s_ in f.node.body if not (isinstance(s_, ast.Expr) and isinstance(s_.value, ast.Constant))]
+    if len(body) != 1 or not isinstance(body[0], ast.For) or body[0].orelse:
+        return None
+    loop = body[0]
+    inner = loop.body
+    conds = []
+    while len(inner) == 1 and isinstance(inner[0], ast.If) and not inner[0].orelse:
+        conds.append(inner[0].test)
+        inner = inner[0].body
+    if len(inner) != 1 or not isinstance(inner[0], ast.Expr) or not isinstance(inner[0].value, ast.Yield) \
+            or inner[0].value.value is None:
+        return None
+    if sum(isinstance(n_, (ast.Yield, ast.YieldFrom)) for n_ in ast.walk(f.node)) != 1:
+        return None
+    g = ast.GeneratorExp(elt=inner[0].value.value,
+                         generators=[ast.comprehension(target=loop.target, iter=loop.iter, ifs=conds, is_async=0)])
+    ast.copy_location(g, loop)
+    ast.fix_missing_locations(g)
+    cache[f.qualname] = g
+    return g
 
 
 def _slice_index(idx):
